@@ -27,23 +27,23 @@ type pCond struct {
 }
 
 type pOp struct {
-	Kind     string            `json:"kind"` // set template call define trace foreach log loop abort
-	Path     string            `json:"path,omitempty"`
-	Strategy string            `json:"strategy,omitempty"` // "", merge, replace, bogus
-	Data     map[string]any    `json:"data,omitempty"`
-	NoData   bool              `json:"nodata,omitempty"`
-	Tmpl     []tpart           `json:"tmpl,omitempty"`
-	ID       string            `json:"id,omitempty"`
-	Name     string            `json:"name,omitempty"`
-	ArgsPath string            `json:"argsPath,omitempty"`
-	Args     map[string]any    `json:"args,omitempty"` // []tpart | map[string][]tpart
-	Items    []string          `json:"items,omitempty"`
-	Query    string            `json:"query,omitempty"`
-	Var      string            `json:"var,omitempty"`
-	Body     *pAct             `json:"body,omitempty"`
-	Init     *pAct             `json:"init,omitempty"`
-	Post     *pAct             `json:"post,omitempty"`
-	Test     pCond             `json:"test,omitempty"`
+	Kind     string         `json:"kind"` // set template call define trace foreach log loop abort
+	Path     string         `json:"path,omitempty"`
+	Strategy string         `json:"strategy,omitempty"` // "", merge, replace, bogus
+	Data     map[string]any `json:"data,omitempty"`
+	NoData   bool           `json:"nodata,omitempty"`
+	Tmpl     []tpart        `json:"tmpl,omitempty"`
+	ID       string         `json:"id,omitempty"`
+	Name     string         `json:"name,omitempty"`
+	ArgsPath string         `json:"argsPath,omitempty"`
+	Args     map[string]any `json:"args,omitempty"` // []tpart | map[string][]tpart
+	Items    []string       `json:"items,omitempty"`
+	Query    string         `json:"query,omitempty"`
+	Var      string         `json:"var,omitempty"`
+	Body     *pAct          `json:"body,omitempty"`
+	Init     *pAct          `json:"init,omitempty"`
+	Post     *pAct          `json:"post,omitempty"`
+	Test     pCond          `json:"test,omitempty"`
 }
 
 type pAct struct {
